@@ -554,6 +554,31 @@ class Lengths:
                     per = self._fold_item(cl)
                     ln = Lengths._list_name(self, it)
                     return [b.add(Form.atom("S(%s){%s}" % (ln, p))) for b in base for p in per]
+            # Option combinators: opt.map_or(d, |x| f(x)) / opt.map(|x| f(x)).unwrap_or(d)  ==  if let Some(x) = opt { f(x) } else { d }
+            opt = dflt = clo = None
+            if last == "map_or" and len(e[3]) == 3:
+                opt, dflt, clo = e[3]
+            elif last in ("unwrap_or", "unwrap_or_default") and e[3] and simp(e[3][0])[0] == "call" and (callee_name(simp(e[3][0])) or "").split("::")[-1] == "map" and len(simp(e[3][0])[3]) == 2:
+                opt, clo = simp(e[3][0])[3]
+                dflt = e[3][1] if last == "unwrap_or" else ("const", 0)
+            if clo is not None and clo[0] == "agg" and clo[1] == "closure":
+                cl = self.prog.by_norm.get(clo[2])
+                if cl is not None:
+                    ebc = ExprBuilder(self.prog, cl)
+                    params = [vn for vn, l, pj in cl.var_places if not pj and 2 <= l <= cl.arg_count]
+                    bound = _place_name(simp(opt)) + "@Some.0"
+                    out = list(self.lin(simp(dflt), fn))
+                    for d in cl.defs(0):
+                        if d[0] not in ("assign", "call"):
+                            continue
+                        for f in self.lin(simp(ebc._def_expr(d, 0, (0,))), cl):
+                            t = {}
+                            for a, c in f.t.items():
+                                for pn in params:
+                                    a = re.sub(r"(?<![\w.])%s(?![\w])" % re.escape(pn), bound, a)
+                                t[a] = t.get(a, 0) + c
+                            out.append(Form(t))
+                    return out
             if last in ("sum",):
                 raise Unknown("iterator sum in a length")
             if last in ("into", "from", "try_into", "unwrap", "clone"):
